@@ -177,6 +177,20 @@ impl<S: Read + Write> Client<S> {
         }
     }
 
+    /// Verification hook: an MCS client as it is once `connect` has succeeded
+    #[cfg(rdp_rs_verif)]
+    pub fn verif_connected(x224: x224::Client<S>, user_id: u16, global_channel_id: u16) -> Self {
+        let mut channel_ids = HashMap::new();
+        channel_ids.insert("global".to_string(), global_channel_id);
+        channel_ids.insert("user".to_string(), user_id);
+        Client {
+            server_data: None,
+            x224,
+            user_id: Some(user_id),
+            channel_ids
+        }
+    }
+
     /// Write connection initial payload
     /// This payload include a lot of
     /// client specific config parameters
